@@ -1330,7 +1330,7 @@ impl<'a, S: Source + 'a> Constructed<'a, S> {
         &mut self, expected: u8,
     ) -> Result<(), DecodeError<S::Error>> {
         self.take_primitive_if(Tag::INTEGER, |prim| {
-            let got = prim.take_u8()?;
+            let got = prim.to_u8()?;
             if got != expected {
                 Err(prim.content_err(ExpectedIntValue(expected)))
             }
@@ -1348,7 +1348,7 @@ impl<'a, S: Source + 'a> Constructed<'a, S> {
         &mut self, expected: u8,
     ) -> Result<(), DecodeError<S::Error>> {
         self.take_opt_primitive_if(Tag::INTEGER, |prim| {
-            let got = prim.take_u8()?;
+            let got = prim.to_u8()?;
             if got != expected {
                 Err(prim.content_err(ExpectedIntValue(expected)))
             }
